@@ -22,6 +22,11 @@ pub struct Scenario {
     pub calls: Vec<BCall>,
     #[serde(default)]
     pub phases: Vec<Phase>,
+    /// Poll inside a tokio runtime, so that tokio's cooperative budget (128 channel operations per
+    /// task poll) is in force: one budget per poll of a call future, one budget per run of consecutive
+    /// stream polls that return items.
+    #[serde(default)]
+    pub tokio: bool,
 }
 
 #[derive(Serialize, Deserialize, Clone, Debug, PartialEq)]
